@@ -33,6 +33,15 @@ let handle (toks : string list) : (string * string * string) option =
         | "stru" -> fin alloc (vrun sc (cv_string_unique (ni w) (ni off)) m0 O)
         | "strs" -> fin alloc (vrun sc (cv_string_std (ni w) (ni off)) m0 O)
         | "cmda" -> fin alloc (vrun sc (cmda (ni w) (ni off) (ni a)) m0 O)
+        | "ptrc" ->
+          (* representation r designates window offset r - (2^32 - w) *)
+          let total = Z.pow (z_of_int 2) (z_of_int 32) in
+          let woff r = (let o = Z.sub r (Z.sub total (z_of_int w)) in
+                        if Z.leb Z0 o && Z.ltb o (z_of_int w) then Some (ni (int_of_z o)) else None) in
+          (match vrun sc (cv_ptr_cell woff (ni a) (ni off)) m0 O with
+           | Ok ((Some v, _), t) -> "V " ^ hex_of v ^ " where=app alias=no ticks=" ^ string_of_int (int_of_nat t)
+           | Ok ((None, _), t) -> "NULLPTR ticks=" ^ string_of_int (int_of_nat t)
+           | Abort -> "ABORT" | Fault -> "FAULT" | Diverge -> "DIVERGE")
         | "cvba" | "cva" ->
           (* the window is the last w bytes of a 2^32-byte sandbox: a representation r designates window offset r - (2^32 - w) *)
           let total = Z.pow (z_of_int 2) (z_of_int 32) in
@@ -43,6 +52,6 @@ let handle (toks : string list) : (string * string * string) option =
            | Abort -> "ABORT" | Fault -> "FAULT" | Diverge -> "DIVERGE")
         | _ -> failwith "bad variant") in
     let cls = "cv09:" ^ variant ^ ":muts" ^ string_of_int (List.length muts) ^
-              (if String.length s > 0 && s.[0] <> 'V' && s.[0] <> 'A' then ":" ^ s else "") in
+              (if String.length s > 0 && s.[0] <> 'V' && s.[0] <> 'A' && s.[0] <> 'N' then ":" ^ s else "") in
     Some (s, s, cls)
   | _ -> None
